@@ -15,6 +15,8 @@ RELEVANT = {
     "C10-b10": ["C10", "C03", "C04", "C06", "C13"],
     "C15-b11": ["C15", "C13", "C06"],
     "C07-b12": ["C07", "C06"],
+    "C05-b13": ["C05", "C14", "C06", "C20", "C07"],
+    "C20-b14": ["C20", "C05", "C14", "C06"],
 }
 runs = sys.argv[sys.argv.index("--runs") + 1] if "--runs" in sys.argv else None
 bad = 0
